@@ -11,6 +11,15 @@ def analysed_fns(ctx):
     return [f for f in ctx.F.fns if f["kind"] != "Closure" and "mir" in f]
 
 
+def is_collection_lock_op(ctx, f):
+    """RawLock impl method of one of the multi-lock collections: decided on the data model (rules_sem / rules_alg), where the
+    member list is concrete; the per-receiver typestate of the API-level analysis does not track list elements"""
+    if not (f.get("trait_item") or "").startswith("lockable::RawLock::"):
+        return False
+    imp = ctx.F.impl_of_fn(f)
+    return bool(imp and imp["self_ty"]["k"] == "adt" and imp["self_ty"]["path"].startswith("collection::"))
+
+
 def entry_fns(ctx):
     """Functions that other crates can name or reach through a public trait: the roots of every path rule.  Crate-private
     helpers are analysed inlined into them, so extracting, inlining, renaming or moving a helper changes no verdict."""
@@ -89,7 +98,7 @@ def rule_T1(ctx, R):
         judged = (not f.get("unsafe")) or acquires
         if not judged:
             continue
-        if (any(p.kind == "cut" for p in paths) and f.get("unsafe")) or (f["path"] in ctx.A.role):
+        if (any(p.kind == "cut" for p in paths) and f.get("unsafe")) or is_collection_lock_op(ctx, f):
             continue
         bad = False
         for p in paths:
@@ -167,7 +176,7 @@ def rule_M4(ctx, R):
             continue
         if f.get("unsafe") and not acquires:
             continue   # precondition carried to callers (which are analysed with this body inlined)
-        if any(p.kind == "cut" for p in paths) or (f["path"] in ctx.A.role):
+        if any(p.kind == "cut" for p in paths) or is_collection_lock_op(ctx, f):
             continue   # loop-bearing algorithm bodies: list elements are not tracked here (Q3/Q4, E2 decide them)
         bad = False
         for p in paths:
@@ -217,7 +226,7 @@ def rule_LEAK(ctx, R, rule="R3", roles=("ACQ-SCOPED",), all_fns=False, floor=30)
             continue   # algorithm bodies with loops: decided by the held-set engine, not here
         if all_fns and not f.get("reachable"):
             continue   # crate-private helpers are judged inlined into their reachable callers
-        if (f.get("trait_item") or "").startswith("lockable::RawLock::") or (f["path"] in ctx.A.role):
+        if (f.get("trait_item") or "").startswith("lockable::RawLock::"):
             continue   # HL ops / algorithm helpers: returning with the lock held is their contract (M2, E2, E5 decide them)
         leaks = held_exit_obligation(ctx, R, f, paths)
         if leaks:
